@@ -339,3 +339,5 @@ M("gg-number-gain", GG, "        self.pbm.UpdatePBMEuler(time, x[0])\n        se
   ["C18:graingrowth"], ["mean_grain_size_decreases"], "every populated class gains 1e-6 of its grains per step before the renormalisation (number of grains rises, mean size falls)")
 M("gg-rcr-mean", GG, "        return self.pbm.SecondMomentFromN(x) / self.pbm.FirstMomentFromN(x)", "        return self.pbm.FirstMomentFromN(x) / self.pbm.ZeroMomentFromN(x)",
   ["C18:graingrowth"], ["growth_law_not_volume_conserving", "mean_grain_size_decreases"], "critical radius taken as the number-mean radius (the growth law no longer conserves volume)")
+M("mob-correction-tracer", MOB, "    return R * T * mobility_from_composition_set(composition_set, mobility_callables, mobility_correction, parameters)", "    return R * T * mobility_from_composition_set(composition_set, mobility_callables, None, parameters)",
+  ["C10"], ["mobility_correction_not_applied", "tracer_not_RT_mobility", "darken_relation"], "tracer diffusivities ignore the mobility correction factors")
